@@ -2,6 +2,7 @@ SPECIFICATION Spec
 CONSTANTS
   AB_PiDenominator = FALSE
   EstimatorNs = {3, 4, 5, 6, 7, 8, 9, 10, 11, 12, 20, 63, 64, 100, 169, 170, 171, 172, 250, 400}
+  BigShapes <- MCBigAll
   PopStructs <- MCPopsAll
   MaxSitesFor <- MCMaxT
 INVARIANTS
